@@ -151,6 +151,116 @@ def shared_worker(groups):
     return out
 
 
+def switch_formula(c, refs_c):
+    """cell c of a graph whose references to cells of the same or a higher index are guarded by the switch cell Z1:
+    with Z1 = FALSE they are dormant (the graph is acyclic), with Z1 = TRUE all of them are live"""
+    parts = [str(2 ** (c - 1))]
+    for j in refs_c:
+        parts.append(f'A{j}' if j < c else f'IF($Z$1,A{j},0)')
+    return '=' + '+'.join(parts)
+
+
+def switch_worker(items):
+    """one model, one evaluator: every cell is evaluated while the guarded references are dormant, the switch is set
+    (set_cell_value), every cell is evaluated again - a cycle that has become live must be reported, whatever was
+    evaluated successfully before; then the switch is cleared and everything must evaluate again"""
+    out = {'n': 0, 'dis': []}
+    for refs, off_exp, on_exp in items:
+        n = len(refs)
+
+        def fn():
+            L = xl.lib()
+            d = {f'Sheet1!A{c}': switch_formula(c, refs[c - 1]) for c in range(1, n + 1)}
+            d['Sheet1!Z1'] = 0
+            ev = L.Evaluator(L.ModelCompiler().read_and_parse_dict(d))
+            res = []
+            for phase, switch in (('off', False), ('on', True), ('off-again', False)):
+                ev.set_cell_value('Sheet1!Z1', switch)
+                for entry in range(1, n + 1):
+                    try:
+                        a = xl.to_abs(ev.evaluate(f'Sheet1!A{entry}'))
+                        res.append((phase, entry, {'outcome': 'value', 'val': a['n'] if a['t'] == 'num' and a['d'] == 1 else -1}))
+                    except RecursionError:
+                        res.append((phase, entry, {'outcome': 'error', 'cls': 'RecursionError'}))
+                    except BaseException as e:      # noqa
+                        if isinstance(e, (KeyboardInterrupt, SystemExit, sandbox._Timeout, MemoryError)):
+                            raise
+                        msg = str(e)
+                        res.append((phase, entry, {'outcome': 'cycle' if 'cycle' in msg.lower() else 'error', 'cls': type(e).__name__}))
+            return {'res': res}
+        r = sandbox.run_timed(fn)
+        got = r.get('res', [])
+        if not got:
+            got = [('on', 1, {'outcome': r.get('outcome', 'timeout')})]
+        for phase, entry, obs in got:
+            out['n'] += 1
+            exp, val = (on_exp if phase == 'on' else off_exp)[entry]
+            if not (obs['outcome'] == exp and (exp != 'value' or obs.get('val') == val)):
+                out['dis'].append({'case': {'refs': refs, 'entry': entry, 'phase': phase,
+                                            'formulas': {f'A{c}': switch_formula(c, refs[c - 1]) for c in range(1, n + 1)},
+                                            'history': 'evaluate all with Z1=FALSE; set Z1=TRUE; evaluate all; set Z1=FALSE; evaluate all'},
+                                   'exp': {'outcome': exp, 'val': val}, 'obs': obs,
+                                   'features': {'expected': exp, 'observed': obs['outcome'], 'phase': phase, 'switch': True}})
+                break
+    return out
+
+
+def lazy_registry_worker(_):
+    """every REGISTERED function with a lazily evaluated parameter (an Expr annotation - IF, AND, OR, NOT and whatever a
+    change adds): A1 = F(..B1 at one position, 1 elsewhere..), B1 = SPY()+A1.  If the spy fired, the evaluation of A1
+    reached B1, whose formula refers back to A1: the dependency is live and a cycle must be reported - by A1 and by B1."""
+    import inspect
+    L = xl.lib()
+    out = {'n': 0, 'dis': [], 'functions': []}
+    lazy = []
+    for name, fn in sorted(L.xl.FUNCTIONS.items()):
+        try:
+            params = list(inspect.signature(fn).parameters.values())
+        except (TypeError, ValueError):
+            continue
+        pos = [i for i, p in enumerate(params) if 'Expr' in str(p.annotation)]
+        if pos:
+            lazy.append((name, params, pos))
+    out['functions'] = [n for n, _, _ in lazy]
+    for name, params, pos in lazy:
+        nreq = len([p for p in params if p.default is inspect.Parameter.empty and p.kind in (p.POSITIONAL_ONLY, p.POSITIONAL_OR_KEYWORD)])
+        nmax = len([p for p in params if p.kind in (p.POSITIONAL_ONLY, p.POSITIONAL_OR_KEYWORD)])
+        variadic = any(p.kind == p.VAR_POSITIONAL for p in params)
+        for nargs in sorted({max(nreq, 1), nmax, (nmax + 1) if variadic else nmax}):
+            for at in range(nargs):
+                for fill in ('1', '0'):
+                    args = [fill] * nargs
+                    args[at] = 'B1'
+                    text = f'={name}(' + ','.join(args) + ')'
+                    for entry in ('A1',):
+                        log = []
+
+                        def SPYC(k):
+                            log.append(1)
+                            return 0
+
+                        def fn():
+                            ev = L.Evaluator(L.ModelCompiler().read_and_parse_dict({'Sheet1!A1': text, 'Sheet1!B1': '=SPYC(1)+A1'}))
+                            ev.namespace['SPYC'] = SPYC
+                            try:
+                                ev.evaluate('Sheet1!' + entry)
+                                return {'outcome': 'value'}
+                            except RecursionError:
+                                return {'outcome': 'error', 'cls': 'RecursionError'}
+                            except BaseException as e:      # noqa
+                                if isinstance(e, (KeyboardInterrupt, SystemExit, sandbox._Timeout, MemoryError)):
+                                    raise
+                                return {'outcome': 'cycle' if 'cycle' in str(e).lower() else 'error', 'cls': type(e).__name__}
+                        r = sandbox.run_timed(fn)
+                        out['n'] += 1
+                        live = bool(log)          # the spy fired: the evaluation of A1 reached B1
+                        if live and r.get('outcome') != 'cycle':
+                            out['dis'].append({'case': {'formulas': {'A1': text, 'B1': '=SPYC(1)+A1'}, 'entry': entry, 'function': name, 'position': at + 1},
+                                               'exp': {'outcome': 'cycle'}, 'obs': dict(r, spy_fired=len(log)),
+                                               'features': {'expected': 'cycle', 'observed': r.get('outcome'), 'lazy_function': True}})
+    return out
+
+
 def chain_event(depth, leaf, lazy=False):
     """lazy: every link mentions its predecessor inside arguments of IF (evaluated on demand)"""
     flen = [0]
@@ -273,6 +383,38 @@ def run(run):
             run.disagree('graph', d['case'], d['exp'], d['obs'], d['features'], clause='shared-evaluator:' + d['features']['expected'] + '->' + d['features']['observed'])
     run.evaluations += nshared
     run.notes['shared_evaluator_evaluations'] = nshared
+    # dormant cycles: references guarded by a switch cell (through the lazily evaluating IF) - evaluate, set the switch, evaluate
+    table = {(str(c['refs']), c['entry']): (c['outcome'], c['val']) for c in cases if not any(c['fail'])}
+    sw_items = []
+    for cse in cases:
+        refs = cse['refs']
+        if any(cse['fail']) or cse['entry'] != 1 or not any(j >= c for c, rs in enumerate(refs, 1) for j in rs):
+            continue
+        off = [[j for j in rs if j < c] for c, rs in enumerate(refs, 1)]
+        try:
+            on_exp = {e: table[(str(refs), e)] for e in range(1, len(refs) + 1)}
+            off_exp = {e: table[(str(off), e)] for e in range(1, len(refs) + 1)}
+        except KeyError:
+            continue
+        sw_items.append((refs, off_exp, on_exp))
+    random.Random(run.seed + 61).shuffle(sw_items)
+    sw_items = sw_items[:1500 if quick else 12000]
+    nsw = 0
+    for res in pool.pmap(switch_worker, sw_items):
+        nsw += res['n']
+        for d in res['dis']:
+            run.disagree('graph', d['case'], d['exp'], d['obs'], d['features'], clause='switch:' + d['features']['phase'] + ':' + d['features']['expected'] + '->' + d['features']['observed'])
+    run.evaluations += nsw
+    run.notes['switch_graph_evaluations'] = nsw
+    if nsw < 1000:
+        raise xl.MachineryError(f'vacuous switch family: {nsw} evaluations')
+    lz = pool.pmap_fresh(lazy_registry_worker, [0])[0]      # (in a child: the sandbox lowers the address-space limit of its process)
+    run.evaluations += lz['n']
+    run.notes['lazy_functions_scanned'] = lz['functions']
+    for d in lz['dis']:
+        run.disagree('graph', d['case'], d['exp'], d['obs'], d['features'], clause='lazy-function-swallows-cycle')
+    if not {'IF', 'AND', 'OR', 'NOT'} <= set(lz['functions']):
+        raise xl.MachineryError(f"lazy parameter scan found {lz['functions']}")
     print(f'[c06] graphs replayed {outcomes}', file=sys.stderr, flush=True)
     if outcomes.get('cycle', 0) < 100 or outcomes.get('value', 0) < 100 or outcomes.get('error', 0) < 100:
         raise xl.MachineryError(f'vacuous instance: {outcomes}')
